@@ -174,7 +174,7 @@ def bar_recipe(pattern, key="C", meter=(4, 4), register="mid", channel=1, veloci
 
 
 # The 12-pattern zoo (leading / inner / trailing / whole-bar rests, chords, single notes, empty
-# container, values that round (20 -> 14.4 ticks) and the rounding tie 64 -> 4.5 ticks).
+# container, values that round (20 -> 14.4, 10 -> 28.8, 5 -> 57.6 ticks) and the rounding tie 64 -> 4.5 ticks).
 PATTERNS = [
     [("N", 4), ("M", 4), ("N", 4), ("M", 4)],               # 0 plain quarters
     [("CH", 2), ("CH", 2)],                                 # 1 chords
@@ -183,7 +183,7 @@ PATTERNS = [
     [("N", 2), ("M", 4), ("R", 4)],                         # 4 trailing rest
     [("R", 1)],                                             # 5 whole-bar rest
     [],                                                     # 6 empty bar
-    [("N", 20), ("N", 20), ("M", 20), ("R", 20), ("CH", 20)],  # 7 rounding values
+    [("N", 20), ("N", 10), ("M", 20), ("R", 10), ("CH", 5)],  # 7 values that round down (14.4) and up (28.8, 57.6)
     [("N", 64), ("CH", 64), ("R", 64), ("M", 64)],          # 8 rounding tie
     [("R", 2), ("X", 4), ("R", 4)],                         # 9 leading + trailing rest, mixed chord
     [("E", 4), ("N", "4."), ("M", 8), ("R", 8), ("N", 8)],  # 10 empty container, dotted value
